@@ -57,6 +57,17 @@ class Ldmcsu(Gate):
 
         self.definition = QuantumCircuit(self.controls, self.target)
 
+        if len(self.controls) == 1:
+            # The two half-size multi-controlled X gates need at least one control
+            # each; a single control is the plain controlled gate.
+            u_gate = QuantumCircuit(1)
+            u_gate.unitary(self.unitary, 0)
+            self.definition.append(
+                u_gate.control(1, ctrl_state=self.ctrl_state),
+                [*self.controls, *self.target],
+            )
+            return
+
         is_main_diag_real = isclose(self.unitary[0, 0].imag, 0.0) and isclose(
             self.unitary[1, 1].imag, 0.0
         )
